@@ -8,9 +8,9 @@ import (
 
 // Specs lists the checks this world binary serves.
 func Specs() []kernel.Spec {
-	return []kernel.Spec{
+	return append([]kernel.Spec{
 		{Prop: "C17", Mk: New, Limits: kernel.Limits{MaxSteps: 500, SettleSteps: 800}},
-	}
+	}, lockSpecs()...) // C17lock: only in the binary built from the lockstep-rewritten tree
 }
 
 func TestSim(t *testing.T) { kernel.Main(t, "submit", Specs()) }
